@@ -8,6 +8,7 @@ open A2l.Mg
 #print axioms a_preserved_length
 #print axioms names_unique
 #print axioms b_represented
+#print axioms b_represented_old_form
 #print axioms b_represented_by_name
 #print axioms b_represented_counterexample
 #print axioms merge_empty_right
@@ -16,3 +17,7 @@ open A2l.Mg
 #print axioms merge_empty_left
 #print axioms merge_empty_left_perm
 #print axioms merge_empty_left_counterexample
+#print axioms actions_fixpoint_terminates
+#print axioms actions_fixpoint_terminates_used
+#print axioms renamed_are_merged
+#print axioms renamed_are_merged_needed
